@@ -18,10 +18,21 @@ def execute_and_validate(name, raw_path, layout_seed=None, nworkers=None, timeou
         return bisect_crash(name, raw_path, layout_seed, st)
     cases = C.read_ndjson(out)
     srcs = C.sources_json()
-    recs, stats, text = C.tlc("TraceExec", cfg, {"CASES": out, "TREES": srcs}, name, timeout=timeout, nworkers=nworkers)
-    if not C.tlc_ok(stats):
-        raise C.ToolError("TLC failed on %s: exit=%s errors=%s (log: work/logs/%s.tlc.log)" % (name, stats["exit"], stats["errors"][:3], name))
-    results = {r["id"]: r for r in recs.get("RESULT", [])}
+    results = {}
+    stats = None
+    for ci, chunk in enumerate(chunk_file(out, d)):
+        cname = name if ci == 0 else "%s_c%d" % (name, ci)
+        recs, st1, text = C.tlc("TraceExec", cfg, {"CASES": chunk, "TREES": srcs}, cname, timeout=timeout, nworkers=nworkers)
+        if not C.tlc_ok(st1):
+            raise C.ToolError("TLC failed on %s: exit=%s errors=%s (log: work/logs/%s.tlc.log)" % (cname, st1["exit"], st1["errors"][:3], cname))
+        for r in recs.get("RESULT", []):
+            results[r["id"]] = r
+        if stats is None:
+            stats = st1
+        else:
+            for key in ("distinct", "states", "wall_s"):
+                stats[key] += st1[key]
+            stats["depth"] = max(stats["depth"], st1["depth"])
     # the specification may ask for regex tables of subjects it computed itself (never taken from the
     # implementation); the oracle (regex crate) supplies them and those cases are validated again
     for rnd in range(3):
@@ -50,6 +61,29 @@ def execute_and_validate(name, raw_path, layout_seed=None, nworkers=None, timeou
         for r in recs2.get("RESULT", []):
             results[r["id"]] = r
     return cases, results, stats
+
+
+CHUNK_BYTES = 12 * 1024 * 1024
+
+
+def chunk_file(path, d):
+    """TLC reads all cases of a run into memory: large batches are validated in pieces of about CHUNK_BYTES"""
+    if os.path.getsize(path) <= CHUNK_BYTES * 3 // 2:
+        return [path]
+    out, cur, size = [], None, 0
+    with open(path, encoding="utf-8") as f:
+        for line in f:
+            if cur is None or size + len(line) > CHUNK_BYTES:
+                if cur:
+                    cur.close()
+                out.append(os.path.join(d, "traces_chunk_%d.ndjson" % len(out)))
+                cur = open(out[-1], "w", encoding="utf-8")
+                size = 0
+            cur.write(line)
+            size += len(line)
+    if cur:
+        cur.close()
+    return out
 
 
 def bisect_crash(name, raw_path, layout_seed, st):
